@@ -341,14 +341,14 @@ func (h *ipv6HeaderTLVOption) serializeTo(data []byte, fixLengths bool, dryrun b
 }
 
 func decodeIPv6HeaderTLVOption(data []byte, df gopacket.DecodeFeedback) (h *ipv6HeaderTLVOption, _ error) {
+	h = &ipv6HeaderTLVOption{}
+	if len(data) >= 1 && data[0] == 0 {
+		h.ActualLength = 1
+		return
+	}
 	if len(data) < 2 {
 		df.SetTruncated()
 		return nil, errors.New("IPv6 header option too small")
-	}
-	h = &ipv6HeaderTLVOption{}
-	if data[0] == 0 {
-		h.ActualLength = 1
-		return
 	}
 	h.OptionType = data[0]
 	h.OptionLength = data[1]
@@ -531,7 +531,7 @@ func (i *IPv6HopByHop) DecodeFromBytes(data []byte, df gopacket.DecodeFeedback) 
 	i.Options = i.Options[:0]
 	offset := 2
 	for offset < i.ActualLength {
-		opt, err := decodeIPv6HeaderTLVOption(data[offset:], df)
+		opt, err := decodeIPv6HeaderTLVOption(data[offset:i.ActualLength], df)
 		if err != nil {
 			return err
 		}
@@ -700,7 +700,7 @@ func (i *IPv6Destination) DecodeFromBytes(data []byte, df gopacket.DecodeFeedbac
 	}
 	offset := 2
 	for offset < i.ActualLength {
-		opt, err := decodeIPv6HeaderTLVOption(data[offset:], df)
+		opt, err := decodeIPv6HeaderTLVOption(data[offset:i.ActualLength], df)
 		if err != nil {
 			return err
 		}
